@@ -300,12 +300,16 @@ fn main() {
             // every auth_events list in the opposite order (power levels before the create event)
             (vec![0, 1, 2, 3, 6, 7, 8], 2, vec![1, 2], 2, vec![11], vec!['a', 'b']),
             (vec![14, 7, 17, 9], 3, vec![1, 2], 2, vec![10], vec!['e']),
+            // building on the losing power-levels fork: conflicted sets made of power events only, one of which
+            // (from the auth difference) has the key of an unconflicted entry
+            (vec![3, 6, 4, 13], 3, vec![1, 2], 2, vec![11], vec!['G']),
         ],
         // cheapest first, so that the wall cap (if it is ever hit) cuts only the last, largest pass
         Tier::Thorough => vec![
             (all.clone(), 3, vec![0, 1, 2], 3, vec![11, 6, 2], vec!['A', 'B']),
             (all17.clone(), 3, vec![0, 1, 2], 3, vec![11, 6], vec!['C']),
             (vec![14, 7, 17, 9, 3, 4], 3, vec![0, 1, 2], 3, vec![10, 6], vec!['E', 'D']),
+            (vec![3, 6, 4, 13, 16], 3, vec![0, 1, 2], 3, vec![11, 6], vec!['G']),
             (vec![17, 18, 19, 7, 8, 3], 4, vec![0, 1, 2], 3, vec![7, 8, 9, 10], vec!['A']),
             (vec![14, 15, 16, 9, 13, 11], 5, vec![2], 2, vec![11], vec!['A']),
             (vec![0, 1, 2, 3, 4, 6, 7, 9, 10, 13], 4, vec![1, 2], 2, vec![11], vec!['A', 'B']),
@@ -315,7 +319,7 @@ fn main() {
         "S: passes (templates of 21, depth, timestamp classes, triple depth, room versions, base rooms) = {passes:?}: every room history reachable by appending \
          <= depth events from the pass's templates (power-level changes by creator/mod, ban, kick, join, leave, join-rule changes, topic/name by \
          mod/user/creator; prev = every 1- or 2-subset of base tip + appended nodes that is not an ancestor pair; timestamp earlier than all / \
-         equal to prev / later) to base room A (with power levels), B (without) or C (A followed by an abandoned power-levels fork, a topic under it, a competing power-levels event and a merging power-levels event); an event exists only if the real auth_check accepts it; after \
+         equal to prev / later) to base room A (with power levels), B (without), G (A followed by two concurrent power-levels events and a ban under the losing one, all usable as prev events) or C (A followed by an abandoned power-levels fork, a topic under it, a competing power-levels event and a merging power-levels event); an event exists only if the real auth_check accepts it; after \
          each append every 2-subset (3-subset up to the triple depth) of {{mid-base node, base tip, appended nodes}} containing the new node is \
          merged by the real resolve and the reference. P: all DAGs on 4 nodes x 24 relabelings x 6^4 (power,ts) keys and all DAGs on 5 nodes x \
          relabelings x 96 key vectors for lexicographical_topological_sort vs naive Kahn. state = one history / one sort input; transition = one \
